@@ -15,7 +15,6 @@ import (
 	"time"
 )
 
-
 type Res int
 
 const (
